@@ -369,7 +369,7 @@ func TestVerifC11Concurrent(t *testing.T) {
 	r := vrep.New("C11", "c11-conc", "6 goroutines over 3 clients (separate region caches, atomic mode) do get/put/delete/CAS with unique values on 3-4 keys while a chaos goroutine splits/merges regions and moves leaders (paced by completed operations); call/return order from one atomic counter; per-key history (+ the final store content as a last read) checked for linearizability with porcupine, errors = maybe happened, checker time-out = inconclusive; distinct = distinct per-key histories (sequence of worker/op/outcome in call order)")
 	defer r.Finish(t)
 	c11Probe()
-	rounds := vrep.Pick(80, 600)
+	rounds := vrep.Pick(150, 3000)
 	for i := 0; i < rounds; i++ {
 		c11ConcRound(t, r, i)
 	}
